@@ -61,7 +61,7 @@ REGISTRY = {
             "assumptions": COMMON_ASSUME + SAN_ASSUME},
     "C02": {"engines": [stress(budget_q=16), eng("chan_seq", "vh_channels", budget_q=6, budget_t=120, shards={"quick": 8, "thorough": 16}),
                         eng("spmc_stress", "vh_channels", budget_q=6, budget_t=90, shards={"quick": 8, "thorough": 16}),
-                        tsan("chan_stress"), miri("chan_stress")],
+                        stepper(budget_q=6, budget_t=90), tsan("chan_stress"), miri("chan_stress")],
             "assumptions": COMMON_ASSUME + SAN_ASSUME},
     "C03": {"engines": [stress(budget_q=18), eng("chan_seq", "vh_channels", budget_q=7, budget_t=120, shards={"quick": 8, "thorough": 16}),
                         stepper(budget_q=6, budget_t=90), tsan("chan_stress")],
